@@ -619,6 +619,11 @@ class PathFinder(object):
         if I.op == "icmp":
             a = self.resolve(I.ops[0], st)
             b = self.resolve(I.ops[1], st)
+            if str(self.fn.insts[I.id].d.get("cbits")) == "64" or True:
+                a2, b2 = self.fn.strip_casts(a), self.fn.strip_casts(b)
+                # pointer comparisons: compare the underlying objects
+                if a2 != a or b2 != b:
+                    a, b = self.resolve(a2, st), self.resolve(b2, st)
             pred = I.d["pred"]
             w = I.d.get("cbits", 64)
             if a[0] in ("c", "n") and b[0] in ("c", "n"):
@@ -635,6 +640,8 @@ class PathFinder(object):
                             atom = (_NEG[atom[0]], atom[1], atom[2])
                     return t, atom
             ka, kb = _okey(a), _okey(b)
+            if ka == kb and ka[0] == "v":
+                return pred in ("eq", "ule", "uge", "sle", "sge"), None
             if ka[0] == "c" and kb[0] != "c":
                 ka, kb, pred = kb, ka, _SWAP[pred]
             atom = (pred, ka, kb)
@@ -686,7 +693,31 @@ class PathFinder(object):
                     return r
         return None
 
-    def search(self, start, goal, blockers=(), start_state=None, skip_start=True):
+    def dominating_facts(self, block):
+        """facts implied by the conditional edges that dominate `block`"""
+        fn = self.fn
+        st = PathState()
+        idom = fn.dom()
+        chain = []
+        b = block
+        while b in idom and idom[b] != b:
+            b = idom[b]
+            chain.append(b)
+        for d in reversed(chain):
+            T = fn.blocks[d][-1]
+            if T.op == "br" and len(T.d["succs"]) == 2 and T.d["succs"][0] != T.d["succs"][1]:
+                s1, s0 = T.d["succs"]
+                e1 = fn.edge_dominates(d, s1, block)
+                e0 = fn.edge_dominates(d, s0, block)
+                if e1 == e0:
+                    continue
+                t, atom = self.cond_truth(T.ops[0], st)
+                if atom is None:
+                    continue
+                st.facts.append(atom if e1 else (_NEG[atom[0]], atom[1], atom[2]))
+        return st
+
+    def search(self, start, goal, blockers=(), start_state=None, skip_start=True, accept=None):
         """start: Inst (search begins after it) or block id (begins at block
         entry). goal: predicate Inst->bool. blockers: predicate Inst->bool or
         set of inst ids.  Returns a path (list of Inst at which goal reached,
@@ -698,6 +729,8 @@ class PathFinder(object):
         else:
             blockers_f = blockers
         self.steps = 0
+        if start_state is None and isinstance(start, Inst):
+            start_state = self.dominating_facts(start.block)
         st = start_state.copy() if start_state else PathState()
         if isinstance(start, Inst):
             b, i = start.block, start.idx + (1 if skip_start else 0)
@@ -705,6 +738,7 @@ class PathFinder(object):
             b, i = start, 0
         visited = collections.Counter()
         trail = []
+        self.accept = accept
         return self._dfs(b, i, st, goal, blockers_f, visited, trail)
 
     def _dfs(self, b, i, st, goal, blockers, visited, trail):
@@ -715,6 +749,8 @@ class PathFinder(object):
         insts = fn.blocks[b]
         for I in insts[i:]:
             if goal(I):
+                if self.accept is not None and not self.accept(st, trail + [(b, I)]):
+                    return None
                 return trail + [(b, I)]
             if blockers(I):
                 return None
